@@ -170,6 +170,7 @@ struct H52 : hu::Harness {
     }
     cfg.strategy = int(r.range(0, 3)); cfg.sticky_num = int(r.range(1, 3)); cfg.starve_thread = int(r.range(0, nj)); cfg.sig_linux_bias = int(r.range(0, 1));
     cfg.max_steps = 200000 + 40000 * long(p.ops.size());
+    cfg.sigchld_ignored = r.chance(1, 6) ? 1 : 0;   // tfel-check started by something that ignores SIGCHLD (the disposition is inherited)
     if (r.chance(1, 4)) { static const int rates[] = {7, 31, 101, 211}; cfg.alloc_rate = rates[r.range(0, 3)]; cfg.alloc_phase = int(r.range(0, 210)); cfg.max_steps *= 4; }   // a share of the runs: allocations of the code under test as scheduling points
     return p;
   }
